@@ -1,2 +1,80 @@
-(* C14 - concurrent session operations are atomic per fid and never deadlock. *)
-From P9 Require Import Model.SessLock.
+(* C14 - concurrent session operations are atomic per fid and never deadlock.
+   Only statements, each closed by [exact lemma], with Print Assumptions.
+
+   The model (Model/SessLock.v): every method of sfilesys.go as a program over atomic
+   actions; a state = fid table + SFid fields + mutex owners + one continuation per
+   operation; [step s i] = one atomic action of operation i; [run sched s] = the
+   interleaving [sched] (ANY list of thread ids).  [init reqauth ops] = a fresh session
+   with the operations [ops] (each with the scripted outcomes of its FileSys calls)
+   not yet begun; an operation that "starts later" is one that is scheduled later, so
+   the reachable states [run sched (init reqauth ops)] cover every finite concurrent
+   history, every thread count and every FileSys behaviour. *)
+From stdpp Require Import gmap.
+From Coq Require Import List NArith.
+From P9 Require Import Model.SessLock Proofs.SessLockProofs Proofs.SessLockProofsLin.
+
+(* "After any operation returns, successfully or not, no fid is left locked" - structurally: on every
+   path of every method (every answer of every table/field/FileSys action, all error returns) each lock
+   taken is released exactly once before the return, nothing else is unlocked, no lock is taken twice. *)
+Theorem C14_balance : forall reqauth o, balanced (prog_of reqauth o) [].
+Proof. intros. apply wf_balanced, wf_prog_of. Qed.
+Print Assumptions C14_balance.
+
+(* the full discipline: additionally, on every path a Lock is taken only while nothing is held, and every
+   field access / FileSys call on an SFid's entry or file is made with that SFid locked *)
+Theorem C14_discipline : forall reqauth o, wf (prog_of reqauth o) [].
+Proof. exact wf_prog_of. Qed.
+Print Assumptions C14_discipline.
+
+(* ... and semantically, for ALL interleavings: an operation that has returned holds no mutex *)
+Theorem C14_no_lock_after_return : forall reqauth ops sched i th p,
+  threads (run sched (init reqauth ops)) !! i = Some th -> is_done th = true ->
+  owner (run sched (init reqauth ops)) !! p <> Some i.
+Proof. intros reqauth ops sched i th p. apply done_holds_nothing, inv_reachable. Qed.
+Print Assumptions C14_no_lock_after_return.
+
+(* ... so when no operation is in flight every SFid is unlocked *)
+Theorem C14_unlocked_at_quiescence : forall reqauth ops sched p,
+  (forall i th, threads (run sched (init reqauth ops)) !! i = Some th -> is_done th = true) ->
+  owner (run sched (init reqauth ops)) !! p = None.
+Proof. intros reqauth ops sched p. apply quiescent_unlocked, inv_reachable. Qed.
+Print Assumptions C14_unlocked_at_quiescence.
+
+(* "the file system never sees two overlapping calls on the entry or open file bound to one fid":
+   for ALL interleavings no two operations are simultaneously inside FileSys calls on one SFid *)
+Theorem C14_mutex : forall reqauth ops sched i j thi thj p,
+  threads (run sched (init reqauth ops)) !! i = Some thi ->
+  threads (run sched (init reqauth ops)) !! j = Some thj ->
+  in_call_on thi = Some (Some p) -> in_call_on thj = Some (Some p) -> i = j.
+Proof. intros reqauth ops sched i j thi thj p. apply mutex, inv_reachable. Qed.
+Print Assumptions C14_mutex.
+
+(* the model-level part of "free of data races": whoever is about to read or write an SFid's fields holds its mutex *)
+Theorem C14_fields_locked : forall reqauth ops sched i th q,
+  threads (run sched (init reqauth ops)) !! i = Some th -> field_access th = Some q ->
+  owner (run sched (init reqauth ops)) !! q = Some i.
+Proof. intros reqauth ops sched i th q. apply fields_locked, inv_reachable. Qed.
+Print Assumptions C14_fields_locked.
+
+(* "every operation returns provided the file system's calls return": no reachable state is stuck - if
+   some operation has not returned, some operation can take a step ([step] lets a pending FileSys call
+   return, which is the proviso).  Invariant: an operation waiting for a mutex holds none. *)
+Theorem C14_progress : forall reqauth ops sched,
+  (exists i th, threads (run sched (init reqauth ops)) !! i = Some th /\ is_done th = false) ->
+  exists j s', step (run sched (init reqauth ops)) j = Some s'.
+Proof. intros reqauth ops sched. apply progress, inv_reachable. Qed.
+Print Assumptions C14_progress.
+
+(* "the results are those of some sequential order of the operations consistent with real time".
+   FULL STATEMENT (not proved):
+     forall reqauth ops sched, all operations returned in (run sched (init reqauth ops)) ->
+       exists o, linearization reqauth (history_of_run sched) o.
+   PROVED: the checker that the harness runs on every observed concurrent history is sound - when it
+   answers [Some o], o is a permutation of the operations, no operation that had returned before another
+   was invoked is placed after it, and running the operations one at a time in that order (model
+   [seq_op] = the operation's program run alone, cf. C14_seq) reproduces every return value and every
+   FileSys call (kind and entry identity). *)
+Theorem C14_linearizable_partial : forall reqauth h o,
+  lin_check reqauth h = Some o -> linearization reqauth h o.
+Proof. exact lin_check_sound. Qed.
+Print Assumptions C14_linearizable_partial.
